@@ -43,6 +43,12 @@ pub fn shared(prop: &'static str, seed: u64) -> Vec<Scenario> {
         add(Tier::Quick, format!("pclose.with.{}", p.clone().lim().tag()), "as above, bob trades the same way, symbolic limit", 400, 150, Box::new(t_pclose(pc.clone().lim(), true)));
         add(Tier::Quick, format!("dep-close.{}", p.tag()), "alice 10x, bob trades against her beyond her margin, alice deposits a symbolic amount (equity crosses zero exactly at one value) and closes", 400, 150, Box::new(t_dep_close(pc.clone(), 45)));
         add(Tier::Quick, format!("prepaid-closes.{}", p.tag()), "three traders on one side close one after the other, each paid partly by the insurance fund (prepaid bad debt accumulates)", 400, 150, Box::new(t_prepaid_closes(pc.clone())));
+        let d_int = "as the template of the same name; right before the transaction(s) under test the owner closes and re-opens the market ('.reopen') or sends an out-of-range partial-liquidation ratio ('.bad-admin'); after a liquidation the rest of the position and the counter-party's are closed";
+        add(Tier::Quick, format!("opp.{}", p.clone().reopen().tag()), d_int, 600, 150, Box::new(t_open2(pc.clone().reopen(), false)));
+        add(Tier::Quick, format!("close.against.{}", p.clone().reopen().tag()), d_int, 300, 120, Box::new(t_close(pc.clone().reopen(), false)));
+        add(Tier::Quick, format!("liq.shallow.{}", pc.clone().partial().reopen().tag()), d_int, 600, 150, Box::new(t_liq(pc.clone().partial().reopen(), 5)));
+        add(Tier::Quick, format!("liq.shallow.{}", pc.clone().bad_admin().tag()), d_int, 600, 150, Box::new(t_liq(pc.clone().bad_admin(), 5)));
+        add(Tier::Quick, format!("liq.shallow.{}", pc.clone().partial().bad_admin().tag()), d_int, 600, 150, Box::new(t_liq(pc.clone().partial().bad_admin(), 5)));
         add(Tier::Quick, format!("two-vamms.{}", p.tag()), "two registered vAMMs: trades, a funding settlement and a liquidation on one, withdraw/close on the other", 600, 150, Box::new(t_two_vamms(pc.clone())));
         // thorough
         add(Tier::Thorough, format!("close.with.{}", p.tag()), d_close, 300, 300, Box::new(t_close(pc.clone(), true)));
@@ -55,6 +61,14 @@ pub fn shared(prop: &'static str, seed: u64) -> Vec<Scenario> {
         add(Tier::Thorough, format!("fund.increase.{}", p.tag()), d_fund, 600, 600, Box::new(t_fund(pc.clone(), 2)));
         add(Tier::Thorough, format!("open.{}", p.clone().native().fees().tag()), d_open, 600, 300, Box::new(t_open(p.clone().native().fees())));
         add(Tier::Thorough, format!("liq.{}", pc.clone().native().partial().tag()), d_liq, 600, 300, Box::new(t_liq(pc.clone().native().partial(), 5)));
+    }
+    if prop == "C03" {
+        let d_out = "fees collected, the fee pool lists the collateral; accounts without any role send fee-pool SendToken (recipient: the owner / a third party / themselves) and insurance-fund Withdraw with a symbolic amount: collateral may move only between the sender, the engine, the insurance fund and the fee pool";
+        for native in [false, true] {
+            let po = P::new(prop, Buy, seed).concrete_prefix();
+            let po = if native { po.native() } else { po };
+            add(Tier::Quick, format!("outsiders.{}", po.tag()), d_out, 200, 120, Box::new(t_outsiders(po.clone())));
+        }
     }
     let p = P::new(prop, Buy, seed);
     let pc = p.clone().concrete_prefix();
@@ -152,6 +166,7 @@ pub fn c04(seed: u64) -> Vec<Scenario> {
         add(Tier::Quick, format!("fund.pclose.close.{}", p.tag()), d, 600, 150, Box::new(t_fund_pclose(pc.clone())));
         add(Tier::Quick, format!("fund.increase.close.{}", p.tag()), d, 600, 150, Box::new(t_fund(pc.clone(), 5)));
         add(Tier::Quick, format!("fund.open-after.reduce.close.{}", p.tag()), d, 600, 150, Box::new(t_fund(pc.clone(), 6)));
+        add(Tier::Quick, format!("fund.open-after.fund-again.close.{}", p.tag()), d, 600, 150, Box::new(t_fund(pc.clone(), 7)));
         add(Tier::Quick, format!("fund.increase.close.{}", pc.clone().trend().fees().tag()), d, 600, 150, Box::new(t_fund(pc.clone().trend().fees(), 5)));
         add(Tier::Quick, format!("fund.liq.close.{}", p.tag()), d, 600, 150, Box::new(t_fund_liq(pc.clone(), true)));
         add(Tier::Quick, format!("fund.close.{}", pc.clone().trend().tag()), d, 600, 150, Box::new(t_fund(pc.clone().trend(), 0)));
@@ -204,6 +219,8 @@ pub fn c05(seed: u64) -> Vec<Scenario> {
         add(Tier::Quick, format!("fund.increase.{}", pc.clone().trend().tag()), d, 600, 150, Box::new(t_fund(pc.clone().trend(), 2)));
         add(Tier::Quick, format!("fund.reverse.{}", pc.clone().trend().tag()), d, 600, 150, Box::new(t_fund(pc.clone().trend(), 3)));
         add(Tier::Quick, format!("opp-after-move.{}", p.tag()), d, 600, 150, Box::new(t_opp_after_move(pc.clone(), false)));
+        add(Tier::Quick, format!("fund.pclose.withdraw.increase.{}", p.tag()), d, 600, 150, Box::new(t_fund_pclose_then(pc.clone(), 2)));
+        add(Tier::Quick, format!("fund.pclose.withdraw.increase.{}", pc.clone().trend().tag()), d, 600, 150, Box::new(t_fund_pclose_then(pc.clone().trend(), 2)));
         add(Tier::Thorough, format!("open.{}", p.clone().lev().wide().tag()), d, 2000, 900, Box::new(t_open(p.clone().lev().wide())));
         add(Tier::Thorough, format!("opp.sym.{}", p.clone().lev().tag()), d, 1500, 900, Box::new(t_open2(p.clone().lev(), false)));
     }
@@ -235,6 +252,9 @@ pub fn liq(prop: &'static str, seed: u64) -> Vec<Scenario> {
         add(Tier::Quick, format!("shallow.{}", pc.clone().partial().caps_lowered().tag()), d, 400, 150, Box::new(t_liq(pc.clone().partial().caps_lowered(), 5)));
         add(Tier::Quick, format!("deep.{}", pc.clone().caps_lowered().tag()), d, 400, 150, Box::new(t_liq(pc.clone().caps_lowered(), 45)));
         add(Tier::Quick, format!("shallow.{}", pc.clone().paused().tag()), d, 400, 150, Box::new(t_liq(pc.clone().paused(), 5)));
+        add(Tier::Quick, format!("shallow.{}", pc.clone().bad_admin().tag()), d, 600, 150, Box::new(t_liq(pc.clone().bad_admin(), 5)));
+        add(Tier::Quick, format!("shallow.{}", pc.clone().partial().bad_admin().tag()), d, 600, 150, Box::new(t_liq(pc.clone().partial().bad_admin(), 5)));
+        add(Tier::Quick, format!("boundary.{}", pc.clone().partial().reopen().tag()), d, 600, 150, Box::new(t_liq(pc.clone().partial().reopen(), 7)));
         add(Tier::Quick, format!("deep.{}", pc.clone().paused().tag()), d, 400, 150, Box::new(t_liq(pc.clone().paused(), 45)));
         add(Tier::Quick, format!("shallow.{}", pc.clone().fees().tag()), d, 600, 150, Box::new(t_liq(pc.clone().fees(), 5)));
         add(Tier::Quick, format!("shallow.{}", pc.clone().native().partial().tag()), d, 600, 150, Box::new(t_liq(pc.clone().native().partial(), 5)));
@@ -342,6 +362,8 @@ pub fn c01_engine(seed: u64) -> Vec<Scenario> {
         v.push(sc(prop, Tier::Quick, &format!("c01.engine.open.{}", sn), d, 300, 90, t_open(p.clone())));
         v.push(sc(prop, Tier::Quick, &format!("c01.engine.opp.{}", sn), d, 400, 90, t_open2(pc.clone(), false)));
         v.push(sc(prop, Tier::Quick, &format!("c01.engine.close.{}", sn), d, 300, 90, t_close(pc.clone(), false)));
+        v.push(sc(prop, Tier::Quick, &format!("c01.engine.close.{}.reopen", sn), d, 300, 90, t_close(pc.clone().reopen(), false)));
+        v.push(sc(prop, Tier::Quick, &format!("c01.engine.opp.{}.reopen", sn), d, 400, 90, t_open2(pc.clone().reopen(), false)));
         v.push(sc(prop, Tier::Quick, &format!("c01.engine.liq.partial.{}", sn), d, 400, 90, t_liq(pc.clone().partial(), 5)));
         v.push(sc(prop, Tier::Quick, &format!("c01.engine.liq.profitable.{}", sn), d, 400, 90, t_liq_profitable(pc.clone())));
         v.push(sc(prop, Tier::Thorough, &format!("c01.engine.opp.sym.{}", sn), d, 1500, 600, t_open2(p.clone(), false)));
